@@ -116,3 +116,34 @@ Proof. exact parse_ss_header. Qed.
 Print Assumptions C04_content_size_field_any_width.
 Example C04_content_size_widths_satisfiable : ss_width_ok 1 7 /\ ss_width_ok 4 7 /\ ss_width_ok 8 7 /\ ss_width_ok 2 300.
 Proof. unfold ss_width_ok. repeat split; lia. Qed.
+
+From ZV.Codec Require Import EncodeProofs.
+(* whole frames: header of any admissible parameter vector, any non-empty list of raw blocks, RLE blocks and literals-only compressed blocks
+   in any spelling (stored and regenerated sizes within Block_Maximum_Size), optional checksum, any bytes after the frame, with or without a
+   dictionary: R regenerates the concatenation of the blocks' contents and stops exactly at the end of the frame *)
+Theorem C04_frames_of_spelled_blocks_decode : forall cfg d p dictID bs rest,
+  params_ok p (lenN (blocks_content bs)) dictID ->
+  bs <> [] -> Forall spelled_block bs ->
+  Forall (block_fits2 (N.min (N.min (frame_window p (lenN (blocks_content bs))) BLOCK_MAX) (c_block_max cfg))) bs ->
+  c_magicless cfg = fp_magicless p ->
+  frame_window p (lenN (blocks_content bs)) <= c_window_max cfg ->
+  dict_ok d p dictID ->
+  exists t, decode_frame cfg d (enc_frame p dictID bs ++ rest) = Ok (blocks_content bs, t, rest).
+Proof. exact decode_frame_spelled_blocks. Qed.
+Print Assumptions C04_frames_of_spelled_blocks_decode.
+
+(* non-vacuity: a concrete frame (window 512 KiB, no content size) with a literals-only block spelt with the 3-byte header and 80 00, then an
+   empty RLE block, meets every hypothesis; the frame is the expected bytes and R (extracted from this very term) decodes it *)
+Example C04_spelled_frame_example :
+  let p := {| fp_windowLog := 19; fp_contentSize := false; fp_checksum := false; fp_noDictID := false; fp_magicless := false |} in
+  let bs := [lit_only_block 3 2 [7; 8; 9]; EBRle 5 0] in
+  params_ok p (lenN (blocks_content bs)) 0 /\ Forall spelled_block bs /\
+  Forall (block_fits2 (N.min (N.min (frame_window p (lenN (blocks_content bs))) BLOCK_MAX) (c_block_max default_config))) bs /\
+  enc_frame p 0 bs = [40; 181; 47; 253; 0; 72; 68; 0; 0; 60; 0; 0; 7; 8; 9; 128; 0; 3; 0; 0; 5] /\
+  blocks_content bs = [7; 8; 9].
+Proof.
+  cbv zeta. split; [unfold params_ok; cbn; lia|]. split.
+  - constructor; [apply SB_lit; [unfold lit_hdr_w_ok; cbn; lia|right; reflexivity]|constructor; [apply SB_rle|constructor]].
+  - split; [|split; vm_compute; reflexivity].
+    constructor; [|constructor; [|constructor]]; unfold block_fits2; vm_compute; split; intro; discriminate.
+Qed.
